@@ -235,24 +235,45 @@ def _cost_key(spec):
 
 
 def shards(tier, seed):
-    target_ms = 7000.0 if tier == 'quick' else 32000.0
+    # NB the number of shards is kept well below 40 per pool worker (the pool recycles workers after 40 tasks)
+    target_ms = 7000.0 if tier == 'quick' else 40000.0
     out = []
+    small = []
+    order = ['cov', 'merge', 'sort', 'extend', 'clip', 'pair_disjoint', 'pair_uniq', 'pair_multi', 'bundle']
     for spec in _specs(tier, seed):
         n_outer = len(_outer(spec['space'], spec['S'], spec['kmax'], _variant(spec)))
         cost = _count_cases(spec) * COST_MS[_cost_key(spec)]
-        K = int(max(1, min(n_outer, round(cost / target_ms))))
+        if cost < target_ms / 4:
+            small.append((dict(spec, k=0, K=1), cost))
+            continue
+        K = int(max(1, min(n_outer, math.ceil(cost / target_ms))))
         for k in range(K):
             d = dict(spec)
             d.update({'k': k, 'K': K, 'tier': tier, 'seed': seed, 'est_ms': round(cost / K)})
             out.append(d)
+    # sub-spaces that are too small for a shard of their own are bundled (in order of contig size)
+    small.sort(key=lambda sc: (sc[0]['S'], order.index(sc[0]['space'])))
+    bundle, bcost = [], 0.0
+    for spec, cost in small + [(None, 0.0)]:
+        if bundle and (spec is None or bcost + cost > target_ms / 2):
+            out.append({'space': 'bundle', 'specs': bundle, 'S': bundle[0]['S'], 'k': 0, 'K': 1, 'tier': tier,
+                        'seed': seed, 'est_ms': round(bcost)})
+            bundle, bcost = [], 0.0
+        if spec is not None:
+            bundle.append(spec)
+            bcost += cost
     # simplest first (small contigs first), so that the exemplar kept for a failure group is a small one
-    order = ['cov', 'merge', 'sort', 'extend', 'clip', 'pair_disjoint', 'pair_uniq', 'pair_multi']
     out.sort(key=lambda d: (d['S'], order.index(d['space']), d['k']))
     return out
 
 
 def _iter_cases(spec):
     """all cases of a shard, simplest first inside the shard"""
+    if spec['space'] == 'bundle':
+        for sub in spec['specs']:
+            for case in _iter_cases(sub):
+                yield case
+        return
     sp, S, k, K = spec['space'], spec['S'], spec['k'], spec['K']
     outer = _outer(sp, S, spec['kmax'], _variant(spec))
     if sp == 'cov':
